@@ -1,16 +1,23 @@
 // C08 — The active chain is always a most-work chain free of invalid blocks.
 // chainsim over block trees: valid and invalid-at-connect blocks on tip / tip-1 / tip-2 / side-branch head /
 // child of an invalid block; header-only and full deliveries (all orders via state dedup), duplicate delivery,
-// InvalidateBlock, ReconsiderBlock, PreciousBlock. CheckBlockIndex() runs inside the node on every step.
+// InvalidateBlock, ReconsiderBlock (of the invalidated block, of a side-branch head and of a genuinely invalid
+// descendant), PreciousBlock. CheckBlockIndex() runs inside the node on every step.
 #include <kits/chainsim_main.h>
 int main(int argc, char** argv)
 {
     return cs::Main(argc, argv, "C08", {}, [](cs::Sim& s) {
         cs::Plan p;
-        s.kinds = {"empty", "spend1", "cb_plus1_empty", "two_spenders"};
-        s.parents = {"t0", "t1", "t2", "s", "x"};
+        if (vx::thorough()) {
+            s.kinds = {"empty", "spend1", "cb_plus1_empty", "two_spenders"};
+            s.parents = {"t0", "t1", "t2", "s", "x"};
+        } else {
+            s.kinds = {"empty", "cb_plus1_empty"};
+            s.parents = {"t0", "t1", "s", "x"};
+        }
         s.ev_flush = false; s.ev_invalidate = true; s.ev_reconsider = true; s.ev_precious = true; s.ev_headers = true;
-        p.depth = vx::thorough() ? 5 : 3;
+        s.ev_reconsider_any = true; // ReconsiderBlock on a descendant / an invalid block: must also revive its valid ancestors
+        p.depth = vx::thorough() ? 5 : 4;
         s.max_new_blocks = vx::thorough() ? 5 : 3;
         p.what = "oracle (from the reference tree only): tip's chain is reference-valid, fully delivered, not manually invalidated, and no such chain is longer (regtest: equal work per block, ties accepted)";
         s.cursor_check = false;
